@@ -247,7 +247,13 @@ def run_lines(exe, lines, cwd=None, timeout=600, restart_on_hang=True):
     exits early (HANG / crash) is restarted after the op that killed it."""
     answers = []
     i = 0
+    restarts = 0
     while i < len(lines):
+        if restarts > 6:
+            # the driver keeps dying: the remaining ops are not run (a violation is already established)
+            answers.extend(["NOT-RUN"] * (len(lines) - len(answers)))
+            break
+        restarts += 1
         chunk = lines[i:]
         try:
             p = subprocess.run([exe], input="\n".join(chunk) + "\n", cwd=cwd, timeout=timeout,
